@@ -141,6 +141,20 @@ Definition in_last_transport (i : cfg_input) : option transport_kind :=
   | CILegacy _ => None
   end.
 
+(* the timeouts the configuration asks for (the last directive of each kind; an explicit zero disables the timer and is not
+   "unset"); 0 = write timeout, 1 = dispatch timeout, 2 = heartbeat *)
+Definition in_last_timeout (which : nat) (i : cfg_input) : option Z :=
+  match i with
+  | CICaddyfile ds =>
+      fold_left (fun acc d => match which, d with
+                              | O, DWriteTimeout z => Some z
+                              | 1%nat, DDispatchTimeout z => Some z
+                              | 2%nat, DHeartbeat z => Some z
+                              | _, _ => acc end) ds None
+  | CIJson f => match which with O => f_write_timeout f | 1%nat => f_dispatch_timeout f | _ => f_heartbeat f end
+  | CILegacy _ => None
+  end.
+
 (* the (key, algorithm) the configuration asks for, when it can be read off without interpretation: the last directive
    of the role with an explicit algorithm, or the only one of its role without algorithm (HS256) *)
 Definition in_expected_pair (pub : bool) (i : cfg_input) : option (str * str) :=
@@ -198,6 +212,10 @@ Definition cfg_spec_ok (c : cfg_case) : bool :=
        | None => true end) &&
       (* a configured transport is the one in effect (the last one written) *)
       (match in_last_transport i with Some k => tk_eqb (o_transport o) k | None => true end) &&
+      (* configured timeouts are the ones in effect *)
+      (match in_last_timeout 0 i with Some z => Z.eqb (o_wt o) z | None => true end) &&
+      (match in_last_timeout 1 i with Some z => Z.eqb (o_dt o) z | None => true end) &&
+      (match in_last_timeout 2 i with Some z => Z.eqb (o_hb o) z | None => true end) &&
       (* the cookie consulted is a configured one or the default *)
       (mem_str (o_cookie o) (in_cookie_names i) || str_eqb (o_cookie o) s_default_cookie)
   end.
